@@ -266,6 +266,11 @@ def plan(tier, seed):
     for cc in flat_ccs:
         for i in range(nslices):
             jobs.append({'flat': True, 'ops': ops[i::nslices], 'cc': cc, 'nrandom': nrandom, 'full_pairs': True, 'no_traps': True})
+    # the portable fallbacks of the bit operations (compilers without __has_builtin) in instrumented builds, and the
+    # unsigned-plain-char ABI for everything that goes through the 8-bit signed type
+    bitops = [o for o in gen.INT_OPS if o.split('.')[1] in ('clz', 'ctz', 'popcnt', 'rotl', 'rotr')]
+    for cc in ('gcc-O1-nobuiltin-san', 'clang-O1-nobuiltin-san'):
+        jobs.append({'flat': True, 'ops': bitops, 'cc': cc, 'nrandom': nrandom, 'full_pairs': True, 'no_traps': True})
     return jobs
 
 
